@@ -37,7 +37,7 @@ def gates(c, tier):
     for k in ("outcome:accepted", "outcome:FilterSyntaxError"):
         if tot and c.get(k, 0) < 0.1 * tot:
             out.append(f"{k} below 10% of cases ({c.get(k, 0)}/{tot})")
-    for k in ("part:random", "part:edits", "part:unbalanced", "part:extra-data", "part:escape-shapes", "part:many-components", "part:nest", "part:repeated-malformed-fragment", "part:low-stack-headroom", "part:surrogates", "accepted-tree-walked", "accepted-reparsed", "offsets-checked"):
+    for k in ("part:random", "part:edits", "part:unbalanced", "part:extra-data", "part:escape-shapes", "part:many-components", "part:nest", "part:decorated-truncations", "part:repeated-malformed-fragment", "part:low-stack-headroom", "part:surrogates", "accepted-tree-walked", "accepted-reparsed", "offsets-checked"):
         if c.get(k, 0) == 0:
             out.append(f"never ran {k}")
     return out
@@ -211,6 +211,16 @@ def _run_shard(ctx: Ctx, acc: Acc):
         for k in idx:
             do("unbalanced", s[:k] + s[k + 1 :])
             do("unbalanced", s[:k] + s[k] * 2 + s[k + 1 :])
+    # small decorated filters (blanks at every tolerated position): every prefix, every suffix, every single deletion
+    if ctx.shard % 4 == 2:
+        for base in ("(&(!(a=b) ) (c=d) )", "( & ( a=b ) ( ! ( c=d ) ) )", "(|(!(a=b)  )(c=*) )", "(!(&(a=b) (c=d) ) )", " (&(a=b)(!(c>=d) )) ", "(&(|(a=b) ) (!(c~=d) ) )", "(! (a:dn:=b) )",
+                     "(&(a=b)(c=d)) ", "(&  (a=b)\t(c=d))", "(!(a=*b*) )"):
+            for k in range(len(base) + 1):
+                do("decorated-truncations", base[:k])
+                do("decorated-truncations", base[k:])
+                if k < len(base):
+                    do("decorated-truncations", base[:k] + base[k + 1:])
+                    do("decorated-truncations", base[:k] + " " + base[k:])
     # substring items whose components decode to text that itself looks like an escape, a star or a backslash
     if ctx.shard % 4 == 0:
         for comp in ("\\5c2a", "\\5c5c", "\\2a", "\\5c", "a\\5c2ab", "\\5C28", "\\5c\\32a"):
